@@ -170,6 +170,12 @@ def cases(tier):
                 yield (first + [repair], ("program", t))
                 yield (first + [repair, ("program", (lib,))], ("program", t))
                 yield (first, ("program", t))
+    # the class a user imports from a requested library can be ADDED to a program over that library, whatever was constructed or imported before
+    for L, module, clsname in (("upkg", "upkg.sub", "Delta"), ("upkg", "upkg", "Eps"), ("ulib", "ulib", "Alpha"), ("upkg2", "upkg2.deep", "Theta"),
+                               (E + ".csv", E + ".csv.io", "EEMSRead"), (E + ".basic", E + ".basic", "Copy")):
+        for first in [[], [("program", (L,))], [("program", (L,)), ("program", (L,))], [("import", module)], [("import", module), ("program", (L,))],
+                      [("program", (L,)), ("import", module)]]:
+            yield (first, ("add", (L, module, clsname)))
     if tier == "thorough":
         small = [E + ".basic", E + ".csv", "ulib", "ulib_extra", "ulib2", "upkg"]
         evs = _events(small, 1) + [("program", t) for t in itertools.permutations(small, 2) if t[0].startswith("u") or t[1].startswith("u")]
@@ -203,6 +209,19 @@ def _do(ev):
     if kind == "import":
         __import__(ev[1])
         return None
+    if kind == "add":
+        import importlib
+        from mpilot.program import Program
+
+        L, module, clsname = ev[1]
+        p = Program(libraries=(L,))
+        cls = getattr(importlib.import_module(module), clsname)
+        args = {"InFileName": "/nonexistent.csv", "InFieldName": "A"} if clsname == "EEMSRead" else {"InFieldName": "x"} if clsname == "Copy" else {}
+        try:
+            p.add_command(cls, "r", args)
+        except MPilotError as exc:
+            return ("add-rejected", type(exc).__name__)
+        return ("added", type(p.commands["r"]).__name__)
     if kind == "create-lib":
         import importlib
 
@@ -279,6 +298,15 @@ def run(case):
     hist, last = case
     hist = [tuple(tuple(x) if isinstance(x, (list, tuple)) else x for x in _e) for _e in hist]
     last = (last[0], tuple(last[1]))
+    if last[0] == "add":
+        got = _in_child(hist, last)
+        tag = {"history": [list(map(str, e)) for e in hist], "imported_class": "%s.%s" % (last[1][1], last[1][2]), "library": last[1][0]}
+        viols = []
+        if got[0] != "added":
+            viols.append(V("C19:add-command:imported-class-rejected:%s" % ("after-history" if hist else "from-empty-history"),
+                           "add_command(%s.%s) on Program((%r,)) after %r: %r" % (last[1][1], last[1][2], last[1][0], hist, got), **tag))
+        return {"evals": len(hist) + 1, "nontrivial": 1, "judged": 1, "states": 1, "transitions": len(hist) + 1, "viols": viols,
+                "outcomes": {"add:%s" % got[0]: 1}, "sample": dict(tag, observed=got[0])}
     priv = None
     if any(lib in ev[1] for ev in hist + [last] if ev[0] == "program" for lib in FLAKY) or any(ev in hist for ev in FLAKY.values()):
         priv = snapshot.scratch_dir("c19p_")  # private to this history: the events write into it
